@@ -8,7 +8,7 @@ From Coq Require Import List ZArith String.
 From AGH Require Import Model.Migrate Proofs.Migrate Proofs.MigrateFrame Proofs.MigrateSim
   Proofs.MigrateTable Gen.MigrateTable Proofs.MigrateFrameDns Proofs.MigrateElems
   Model.MigrateLoad Proofs.MigrateLoadable Proofs.MigrateLoadableC Proofs.MigrateLoadableH Proofs.MigrateBack
-  Model.MigrateKinds Proofs.MigrateKinds.
+  Model.MigrateKinds Proofs.MigrateKinds Model.MigrateFootprint Proofs.MigrateFootprint Proofs.MigrateValues.
 Import ListNotations.
 Local Open Scope string_scope.
 Local Open Scope Z_scope.
@@ -422,3 +422,122 @@ Example C13_null_pointer_section_not_loadable :
   loadable 29 [("schema_version", VInt 29); ("dns", VNull)] = true.
 Proof. exact null_section_not_loadable. Qed.
 Print Assumptions C13_null_pointer_section_not_loadable.
+
+(** ** Footprints: what each step may touch (round 4)
+
+    [fp_table] (Model/MigrateFootprint.v) declares for each of the 29 steps
+    where it may write, rename or delete: a tree that follows the document
+    ([FAll] anything below here; [FKeys] a map stays a map and only the
+    listed keys may change, each by its own footprint; [FElems] a list stays
+    a list of the same length, each element by the footprint).  Keys a step
+    only reads are outside.  [Within f a b]: [b] differs from [a] only as [f]
+    allows.  Every step of the table stays within its footprint, for every
+    document on which it succeeds and every oracle.  The harness holds the
+    same table as a Go literal (compared with [fp_table] in Coq at every run)
+    and evaluates [Within] on the document before and after each REAL step. *)
+Theorem C13_steps_within_footprints : forall O, Forall2 stays fp_table (map snd (steps O)).
+Proof. exact steps_stay. Qed.
+Print Assumptions C13_steps_within_footprints.
+
+Theorem C13_step_within_footprint : forall O n f s m m',
+  nth_error fp_table n = Some f -> nth_error (map snd (steps O)) n = Some s ->
+  s (Some m) = Ok m' -> Within f (Some (VObj m)) (Some (VObj m')).
+Proof. intros O n f s m m' Hf Hs. exact (table_step_stays O n f s Hf Hs m m'). Qed.
+Print Assumptions C13_step_within_footprint.
+
+(** A step that changes nothing is within any footprint. *)
+Theorem C13_unchanged_is_within : forall f a, Within f a a.
+Proof. exact Within_refl. Qed.
+Print Assumptions C13_unchanged_is_within.
+
+(** From footprints to key paths: what lies on a path [outside] the
+    footprint (a value, or nothing) is the same before and after. *)
+Theorem C13_footprint_paths : forall f a b p,
+  Within f a b -> outside f p = true -> lookup p a = lookup p b.
+Proof. exact Within_outside. Qed.
+Print Assumptions C13_footprint_paths.
+
+(** "Settings a step does not concern are preserved", at full depth: every
+    key path (through sections and list positions) outside the footprint of
+    every step that ran holds in the upgraded document what it held in the
+    input.  For any range of steps, and for [Migrate]. *)
+Theorem C13_frame_paths_steps : forall O cur tgt m m' p,
+  upgrade O cur tgt m = Ok m' -> outside_all (fps_of cur tgt) p = true ->
+  lookup p (Some (VObj m')) = lookup p (Some (VObj m)).
+Proof. exact upgrade_paths. Qed.
+Print Assumptions C13_frame_paths_steps.
+
+Theorem C13_frame_paths : forall O top t m' p,
+  migrate O top t = ONew m' ->
+  outside_all (fps_of (nat_version (input_map top)) (Z.to_nat t)) p = true ->
+  lookup p (Some (VObj m')) = lookup p (Some (VObj (input_map top))).
+Proof. exact migrate_paths. Qed.
+Print Assumptions C13_frame_paths.
+
+(** Non-vacuity: in the version-22 example a key of [dns] no step lists, the
+    url of a filter (read by step 29) and an element of a list are outside
+    every footprint and preserved; [bind_host] and [dns.all_servers] are
+    inside and do change. *)
+Example C13_frame_paths_satisfiable :
+  let fs := fps_of 22 29 in
+  outside_all fs [SK "dns"; SK "port"] = true /\
+  outside_all fs [SK "filters"; SI 1; SK "url"] = true /\
+  outside_all fs [SK "dns"; SK "bootstrap_dns"; SI 1] = true /\
+  outside_all fs [SK "bind_host"] = false /\
+  outside_all fs [SK "dns"] = false /\
+  outside_all fs [SK "dns"; SK "all_servers"] = false /\
+  exists m', migrate oracles0 (Some doc22p) 29 = ONew m' /\
+    lookup [SK "dns"; SK "port"] (Some (VObj m')) = Some (VInt 5353) /\
+    lookup [SK "filters"; SI 1; SK "url"] (Some (VObj m')) = Some (VStr "https://a.example/l.txt") /\
+    lookup [SK "dns"; SK "bootstrap_dns"; SI 1] (Some (VObj m')) = Some (VStr "1.1.1.1") /\
+    lookup [SK "bind_host"] (Some (VObj doc22p)) = Some (VStr "127.0.0.1") /\
+    lookup [SK "bind_host"] (Some (VObj m')) = None /\
+    lookup [SK "dns"; SK "all_servers"] (Some (VObj m')) = None.
+Proof. exact doc22_paths. Qed.
+Print Assumptions C13_frame_paths_satisfiable.
+
+(** The footprints tell steps apart: step 9 is not within step 8's. *)
+Example C13_footprints_not_vacuous :
+  exists m m', step9 (Some m) = Ok m' /\ ~ Within fp8 (Some (VObj m)) (Some (VObj m')).
+Proof. exact step9_leaves_fp8. Qed.
+Print Assumptions C13_footprints_not_vacuous.
+
+(** ** Inside the footprint: steps that rewrite a value in place
+
+    The new value at the key is the documented function of the OLD value at
+    the SAME key ([f3]: wrap in a list; [f12], [f20]: days to a duration with
+    the default; [f17]: the switch becomes an object; [f21]: the list becomes
+    [{schedule, ids}]); for the list-walking steps 10, 22, 27 see
+    [C13_upstreams_elementwise], [C13_clients_elementwise],
+    [C13_ignored_elementwise] above.  The harness evaluates Go twins of these
+    functions (compared with them in Coq on samples) on every real step. *)
+Theorem C13_value_step3 : rewrites_at step3 "dns" "bootstrap_dns" f3.
+Proof. exact value3. Qed.
+Print Assumptions C13_value_step3.
+
+Theorem C13_value_step12 : rewrites_at step12 "dns" "querylog_interval" f12.
+Proof. exact value12. Qed.
+Print Assumptions C13_value_step12.
+
+Theorem C13_value_step17 : rewrites_at step17 "dns" "edns_client_subnet" f17.
+Proof. exact value17. Qed.
+Print Assumptions C13_value_step17.
+
+Theorem C13_value_step20 : rewrites_at step20 "statistics" "interval" f20.
+Proof. exact value20. Qed.
+Print Assumptions C13_value_step20.
+
+Theorem C13_value_step21 : rewrites_at step21 "dns" "blocked_services" f21.
+Proof. exact value21. Qed.
+Print Assumptions C13_value_step21.
+
+Example C13_values_defined :
+  f3 (Some (VStr "1.1.1.1")) = Some (Some (VArr [VStr "1.1.1.1"])) /\
+  f12 (Some (VInt 30)) = Some (Some (VDur 2592000000000000)) /\
+  f12 None = Some (Some (VDur 7776000000000000)) /\
+  f17 (Some (VBool true)) = Some (Some (VObj [("enabled", VBool true); ("use_custom", VBool false); ("custom_ip", VStr "")])) /\
+  f20 (Some (VInt 0)) = Some (Some (VDur 86400000000000)) /\
+  f21 (Some (VArr [VStr "500px"])) = Some (Some (VObj [("schedule", schedule0); ("ids", VArr [VStr "500px"])])) /\
+  f21 (Some (VStr "x")) = None.
+Proof. exact values_defined. Qed.
+Print Assumptions C13_values_defined.
